@@ -359,6 +359,22 @@ def path_value(pth, e, al):
 
 
 
+def canon_target_key(prog, src):
+    """`<rel>.target_partname(<base>)` written as `PackURI.from_rel_ref(<base>, <rel>.target_ref)` when CT_Relationship.target_partname
+    is exactly that (an accessor extracted onto the element class)."""
+    import re as _re
+
+    ctr = prog.cls("pptx.opc.oxml", "CT_Relationship")
+    tp = ctr.methods.get("target_partname") if ctr else None
+    if tp is None:
+        return src
+    rets = [n.value for n in ast.walk(tp.node) if isinstance(n, ast.Return) and n.value is not None]
+    ps = [a.arg for a in tp.node.args.args]
+    if len(rets) == 1 and len(ps) == 2 and ast.unparse(rets[0]) == "PackURI.from_rel_ref(%s, %s.target_ref)" % (ps[1], ps[0]):
+        return _re.sub(r"([\w.]+)\.target_partname\(([\w.]+)\)", r"PackURI.from_rel_ref(\2, \1.target_ref)", src)
+    return src
+
+
 def part_construction(pf, prog=None):
     """Where the loader builds a part: (key expression, PartFactory call, iterable the names are drawn from), for the
     comprehension form `{name: PartFactory(...) for name in it}` and the loop form `for name in it: parts[name] = PartFactory(...)`.
@@ -793,7 +809,7 @@ def run(ctx):
             probs.append("a path does not return cls(base_uri, rId, reltype, target_mode, target)")
             continue
         n_rows += 1
-        got = [path_value(pth, a, fal) for a in v.args]
+        got = [canon_target_key(prog, path_value(pth, a, fal)) for a in v.args]
         if got[:4] != [bp, rp + ".rId", rp + ".reltype", rp + ".targetMode"]:
             probs.append("constructor receives %s, not (base_uri, Id, Type, TargetMode)" % got[:4])
         fs = P_.facts(pth, None, fal)
@@ -827,7 +843,9 @@ def run(ctx):
     else:
         ctx.violation("R1.3", "_Relationship.is_external", "is_external is not `target_mode == External`", file=rel.file, line=ie.line if ie else rel.line)
     lf = rels.methods.get("load_from_xml")
-    lfx = _expand(prog, lf, local_only=True)
+    from sa.desugar import lift_generators as _lift
+
+    lfx = _lift(_expand(prog, lf, local_only=True))   # `valid = (f(e) for e in lst if ok(e))` reads as a nested generator function
     lal, lval = P_.aliases(lfx), P_.value_aliases(lfx)
     lpar = [a.arg for a in lf.node.args.args]
     loops = [n for n in ast.walk(lfx) if isinstance(n, ast.For) and (dotted(n.iter) or "").endswith(".relationship_lst")
@@ -851,8 +869,8 @@ def run(ctx):
             if made is None:
                 fs = P_.facts(pth, None, lal)
                 dangling = P_.implied(fs, lambda a: mode_fact(a, True)) and P_.implied(
-                    fs, lambda a: a[0] == "in" and a[3] is False and a[2] == lpar[3] and "from_rel_ref(" in (
-                        a[1] if a[1] not in lval else ast.unparse(lval[a[1]])))
+                    fs, lambda a: a[0] == "in" and a[3] is False and a[2] == lpar[3] and "from_rel_ref(" in canon_target_key(prog, (
+                        a[1] if a[1] not in lval else ast.unparse(lval[a[1]]))))
                 if not dangling:
                     probs.append("a relationship is dropped on a path that has not established that it is Internal with an absent target part")
                 continue
